@@ -113,3 +113,66 @@ theorem off2_nat (r c i j : Nat) : off2 [r, c] (i : Int) (j : Int) = i * c + j :
   unfold off2; simp [normIdx_nat]
 
 end XrsVerif.IL
+
+namespace XrsVerif.IL
+open XrsVerif
+variable {F : Type} [Fl F]
+set_option linter.unusedSectionVars false
+
+/-! ### `while`, one iteration at a time -/
+
+theorem exec_while_zero (c : BE) (body : St) (s : State F) :
+    exec 0 (.while c body) s = s.error "fuel" := by
+  simp only [exec]
+
+/-- the condition is false: the loop is over and the state unchanged -/
+theorem exec_while_done (fuel : Nat) (c : BE) (body : St) (s : State F)
+    (hok : c.ok s = true) (hc : c.eval s = false) :
+    exec (fuel + 1) (.while c body) s = s := by
+  simp only [exec, hok, hc, if_true]
+  simp
+
+/-- the condition is true and the body ends normally (or with `continue`): go round again -/
+theorem exec_while_step (fuel : Nat) (c : BE) (body : St) (s : State F)
+    (hok : c.ok s = true) (hc : c.eval s = true)
+    (hb : (exec fuel body s).ctl = .run ∨ (exec fuel body s).ctl = .cont) :
+    exec (fuel + 1) (.while c body) s =
+      exec fuel (.while c body) { exec fuel body s with ctl := .run } := by
+  simp only [exec, hok, hc, if_true]
+  rcases hb with hb | hb
+  · simp only [hb]
+    congr 1
+    cases h : exec fuel body s
+    simp_all
+  · simp only [hb]
+
+/-- the condition is true and the body ends with `break`: the loop is over -/
+theorem exec_while_break (fuel : Nat) (c : BE) (body : St) (s : State F)
+    (hok : c.ok s = true) (hc : c.eval s = true) (hb : (exec fuel body s).ctl = .brk) :
+    exec (fuel + 1) (.while c body) s = { exec fuel body s with ctl := .run } := by
+  simp only [exec, hok, hc, if_true, hb]
+
+/-- the condition is true and the body ends with `return` (or an error): the loop passes it on -/
+theorem exec_while_ret (fuel : Nat) (c : BE) (body : St) (s : State F)
+    (hok : c.ok s = true) (hc : c.eval s = true) (hb : (exec fuel body s).ctl = .ret) :
+    exec (fuel + 1) (.while c body) s = exec fuel body s := by
+  simp only [exec, hok, hc, if_true, hb]
+
+/-- `scope`: a `return` inside an inlined callee ends only the callee -/
+theorem exec_scope_ret (fuel : Nat) (body : St) (s : State F) (h : (exec fuel body s).ctl = .ret) :
+    exec fuel (.scope body) s = { exec fuel body s with ctl := .run } := by
+  simp only [exec, h, if_true]
+
+theorem exec_scope_other (fuel : Nat) (body : St) (s : State F) (h : (exec fuel body s).ctl ≠ .ret) :
+    exec fuel (.scope body) s = exec fuel body s := by
+  simp only [exec, h, if_false]
+
+theorem exec_seq_run (fuel : Nat) (a b : St) (s : State F) (h : (exec fuel a s).ctl = .run) :
+    exec fuel (.seq a b) s = exec fuel b (exec fuel a s) := by
+  simp only [exec, h, if_true]
+
+theorem exec_seq_stop (fuel : Nat) (a b : St) (s : State F) (h : (exec fuel a s).ctl ≠ .run) :
+    exec fuel (.seq a b) s = exec fuel a s := by
+  simp only [exec, h, if_false]
+
+end XrsVerif.IL
